@@ -1,4 +1,5 @@
 import Varpulis.Lemmas.Partition
+import Varpulis.Lemmas.SasePartition
 /-!
 # C04 — partitioned windows and aggregates act as independent per-key runs
 
@@ -7,8 +8,9 @@ import Varpulis.Lemmas.Partition
 operations (`advance_watermark`, `check_expired`, `flush_shared`) to every present sub-machine; `drop` removes
 closed partitions (session variant). `proj route k ops` is the sub-sequence of `ops` that concerns key `k`
 (its events and every broadcast), `forKey k` the emissions tagged `k`.
-The partitioned *pattern* (SASE `partitioned_runs`) part of C04 is not proved here (no SASE model in this
-file); it is tied by correspondence only — see notes/C04.md.
+The partitioned *pattern* part (SASE `partitioned_runs`) is the last section: the generic theorem instantiated
+with the one-partition machine of the SASE model (Model/Sase.lean, Lemmas/SasePartition.lean), for patterns
+without global negations (`.not` acts across partitions by design).
 -/
 namespace Varpulis.Props.C04
 open Varpulis.Window
@@ -186,4 +188,66 @@ example : (pcount 2).emits (pcount 2).init
     = [("a", [⟨0, 0, some (.str "a")⟩, ⟨3, 3, some (.str "a")⟩]), ("default", [⟨2, 2, none⟩, ⟨4, 4, none⟩])] := by
   decide
 
+
+/-! ### partitioned sequence patterns (SASE `partitioned_runs`)
+
+Over a5's step-level model of `sase.rs` (Model/Sase.lean: `stepEngine` = `process_shared`, `runAll`, `matchesOf`;
+fragment: sequences of `Event` / `all` steps with `Compare`/`CompareRef`/`And`/`Or`/`Not` filters, no `.within`,
+back-pressure strategy `Drop` with the per-partition cap `max_runs`, Kleene cap). Guard, stated explicitly:
+`p.negs = []` — a global negation (`.not`) is by design a clause over ALL events and invalidates runs across
+partitions (`negation_crosses_partitions_witness`). No premise on `max_runs`: the cap is applied per partition by
+`handle_backpressure_partitioned` and to the single `runs` vector by `handle_backpressure`, so a refused run is
+refused on both sides. `subStream p k evs` = the events whose key (`to_partition_key` of the field, missing field →
+`""`) is `k`; `unpartitioned p` = the same pattern without `partition_by`. -/
+
+open Varpulis.Sase in
+/-- `SaseEngine` with `partition_by` IS the generic partitioned machine around the one-partition machine
+`keyMachine` (run loop over one `Vec<Run>`, then `try_start_run_shared` + back-pressure), routed by `keyOf`:
+from related states, partition maps and per-event matches stay equal. -/
+theorem sase_engine_is_partitioned_machine (p : Pat) (hneg : p.negs = []) (cfg : Cfg) (evs : List Event)
+    (s : Eng) (ps : PState String (List Run)) (hrel : ∀ k, s.parts k = ps.sub k) :
+    (∀ k, (runFrom p cfg s evs).1.parts k = ((partMachine p cfg).final ps evs).sub k) ∧
+    (runFrom p cfg s evs).2 = ((partMachine p cfg).emits ps evs).map (·.2) :=
+  runFrom_sim hneg cfg evs s ps hrel
+
+open Varpulis.Sase in
+/-- partitioned patterns act as independent per-key runs: restricted to the events of key `k`, the per-event
+matches of the partitioned engine on the whole stream are exactly those of the pattern without `partition_by`
+on `k`'s sub-stream, and partition `k`'s run vector is that engine's run vector. Events of other keys do not
+occur in `subStream p k evs`, so they cannot influence either. -/
+theorem partitioned_patterns_independent (p : Pat) (hneg : p.negs = []) (cfg : Cfg) (evs : List Event) (k : String) :
+    (runAll p cfg evs).2.filter (fun x => keyOf p x.1 = k) = (runAll (unpartitioned p) cfg (subStream p k evs)).2 ∧
+    (runAll p cfg evs).1.parts k = (runAll (unpartitioned p) cfg (subStream p k evs)).1.parts "" :=
+  patterns_independent hneg cfg evs k
+
+open Varpulis.Sase in
+/-- hence the matches of the whole stream are the multiset union over the keys of the per-key runs -/
+theorem partitioned_patterns_union (p : Pat) (hneg : p.negs = []) (cfg : Cfg) (evs : List Event) (keys : List String)
+    (hnd : keys.Nodup) (hcov : ∀ e ∈ evs, keyOf p e ∈ keys) :
+    (matchesOf p cfg evs).Perm (keys.flatMap fun k => matchesOf (unpartitioned p) cfg (subStream p k evs)) :=
+  patterns_union hneg cfg evs keys hnd hcov
+
+open Varpulis.Sase in
+/-- the guard is needed: `A as a -> B as b .partition_by(k) .not(N)` on `A{k:1} N{k:2} B{k:1}` — the `N` of
+partition 2 kills the candidate of partition 1 (no match on the whole stream), while partition 1's own
+sub-stream `A B` matches. This is C01/C02's reading of `.not` (a clause over all events), not a defect. -/
+theorem negation_crosses_partitions_witness :
+    let p : Pat := { steps := [⟨"A", none, some "a", false⟩, ⟨"B", none, some "b", false⟩], partition := some "k", negs := [⟨"N", none⟩] }
+    let evs : List Event := [⟨0, "A", [("k", .int 1)]⟩, ⟨1, "N", [("k", .int 2)]⟩, ⟨2, "B", [("k", .int 1)]⟩]
+    (matchesOf p {} evs).length = 0 ∧ (matchesOf (unpartitioned p) {} (subStream p "1" evs)).length = 1 := by
+  intro p evs
+  have h1 := (matches_perm_earliestNF (p := p) (cfg := {}) (evs := evs) (by decide) (noDrop_of_length (by decide))).length_eq
+  have hsub : subStream p "1" evs = [⟨0, "A", [("k", .int 1)]⟩, ⟨2, "B", [("k", .int 1)]⟩] := by decide
+  have h2 := (matches_perm_earliestNF (p := unpartitioned p) (cfg := {}) (evs := subStream p "1" evs) (by decide)
+    (noDrop_of_length (by rw [hsub]; decide))).length_eq
+  refine ⟨by rw [h1]; decide, by rw [h2, hsub]; decide⟩
+
+open Varpulis.Sase in
+/-- non-vacuity: two keys and a missing key interleaved, `A as a -> all B as b` partitioned by `k` -/
+example :
+    let p : Pat := { steps := [⟨"A", none, some "a", false⟩, ⟨"B", none, some "b", true⟩], partition := some "k", negs := [] }
+    let evs : List Event := [⟨0, "A", [("k", .str "x")]⟩, ⟨1, "A", []⟩, ⟨2, "B", [("k", .str "y")]⟩, ⟨3, "B", [("k", .str "x")]⟩, ⟨4, "B", []⟩]
+    p.negs = [] ∧ subStream p "x" evs = [⟨0, "A", [("k", .str "x")]⟩, ⟨3, "B", [("k", .str "x")]⟩] ∧
+    subStream p "" evs = [⟨1, "A", []⟩, ⟨4, "B", []⟩] := by
+  decide
 end Varpulis.Props.C04
